@@ -2303,10 +2303,12 @@ class C09(Prop):
         rng = random.Random(seed)
         syms = [43, 45, 42, 33]
         alpha = [120, 121] + syms
-        ntab = 150 if tier == 'quick' else 1500
-        maxlen = 5 if tier == 'quick' else 7
+        ntab = 150 if tier == 'quick' else 600
         lines = []
         for n in range(ntab):
+            # thorough: four times the tables, the first 60 of them on all strings one token longer (more does not fit a run:
+            # 6^7 inputs x 4 builds per table)
+            maxlen = 5 if tier == 'quick' or n >= 60 else 6
             nops = rng.randint(1, 6)
             ops = []
             for _ in range(nops):
@@ -2389,26 +2391,49 @@ class C09(Prop):
         return lines
 
     def custom_run(self, lines, tier, seed, jobs):
+        """tables are compared inside the workers (the Vec and the tuple build of one table travel together), so that only
+        counters and failures come back: the observations of a thorough run do not fit in memory at once"""
         import multiprocessing
-        n = max(1, min(jobs * 2, len(lines)))
-        chunks = [lines[i::n] for i in range(n)]
-        with multiprocessing.Pool(jobs) as pool:
-            results = pool.map(_pratt_worker, [c for c in chunks if c])
+        groups = {}
+        for l in lines:
+            groups.setdefault(l.split(' ')[1][1:-1], []).append(l)
+        keys = list(groups)
+        n = max(1, min(jobs * 8, len(keys)))
+        chunks = [[l for k in keys[i::n] for l in groups[k]] for i in range(n)]
+        tot = {'pairs': 0, 'corr_disagree': 0, 'pred_fail': 0, 'outcomes': {}, 'impl_s': 0.0, 'model_s': 0.0, 'crash': None,
+               'samples': [], 'nontrivial': 0, 'known': {}}
+        fails = []
+        with multiprocessing.Pool(jobs, maxtasksperchild=4) as pool:
+            for st, fl in pool.imap_unordered(_pratt_chunk, [c for c in chunks if c]):
+                for k in ('pairs', 'corr_disagree', 'pred_fail', 'nontrivial'):
+                    tot[k] += st[k]
+                for k, v in st['outcomes'].items():
+                    tot['outcomes'][k] = tot['outcomes'].get(k, 0) + v
+                for k, v in st.get('known', {}).items():
+                    tot['known'][k] = tot['known'].get(k, 0) + v
+                if st.get('crash'):
+                    tot['crash'] = st['crash']
+                tot['samples'] = (tot['samples'] + st['samples'])[:3]
+                for f in fl:
+                    if sum(1 for g in fails if g[0] == f[0]) < 100:
+                        fails.append(f)
+        return tot, fails
+
+    def compare_chunk(self, lines, rci, oi, rcm, om):
         tot = {'pairs': 0, 'corr_disagree': 0, 'pred_fail': 0, 'outcomes': {}, 'impl_s': 0.0, 'model_s': 0.0, 'crash': None,
                'samples': [], 'nontrivial': 0}
         fails = []
         impl, model = {}, {}
-        for rci, oi, rcm, om in results:
-            if rci != 0 or rcm != 0:
-                tot['crash'] = f'h_pratt rc={rci} driver rc={rcm}'
-            for l in oi.split('\n'):
-                sp = l.split(' ', 2)
-                if len(sp) == 3:
-                    impl.setdefault(sp[0], {})[sp[1]] = sp[2]
-            for l in om.split('\n'):
-                sp = l.split(' ', 2)
-                if len(sp) == 3:
-                    model.setdefault(sp[0], {})[sp[1]] = sp[2]
+        if rci != 0 or rcm != 0:
+            tot['crash'] = f'h_pratt rc={rci} driver rc={rcm}'
+        for l in oi.split('\n'):
+            sp = l.split(' ', 2)
+            if len(sp) == 3:
+                impl.setdefault(sp[0], {})[sp[1]] = sp[2]
+        for l in om.split('\n'):
+            sp = l.split(' ', 2)
+            if len(sp) == 3:
+                model.setdefault(sp[0], {})[sp[1]] = sp[2]
         by_id = {l.split(' ')[1]: l for l in lines}
         for key, mo in model.items():
             cid, _, k = key.rpartition('.')
@@ -2450,6 +2475,11 @@ class C09(Prop):
             elif len(tot['samples']) < 3 and im.get('out') is not None and k > 300:
                 tot['samples'].append({'table': line.partition(' I ')[0], 'input_index': k, 'tree': a})
         return tot, fails
+
+
+def _pratt_chunk(lines):
+    rci, oi, rcm, om = _pratt_worker(lines)
+    return C09().compare_chunk(lines, rci, oi, rcm, om)
 
 
 # ------------------------------------------------------------------------------------------------
